@@ -1,12 +1,15 @@
-(* C03 property theorems: statements only, each closed by [exact]. *)
+(* C03 property theorems: statements only, each closed by [exact].
+   Model/C03.v: [select] = CoinSelector.select, [sqlite_select] = database.get_and_reserve_spendable_utxos,
+   [choose_from] / [spendable] = Ledger.get_spendable_utxos, [create] = Transaction.create.
+   [shuffle] stands for Random.shuffle: every theorem holds for EVERY function that permutes its argument.
+   [eff u] = amount minus the fee of the 148-byte input that spends it. *)
 From Coq Require Import NArith ZArith List Bool Permutation.
 From LV Require Import Model.C03 Proofs.C03.
 Import ListNotations.
 Local Open Scope Z_scope.
 
-(* Whatever CoinSelector.select answers (every strategy, every list of offered outputs, every target,
-   every permutation used by random_draw) is a duplicate-free sub-list of the offered outputs and, if it
-   is not empty, its effective amounts (amount minus the fee to spend it) cover the target. *)
+(* Whatever CoinSelector.select answers (every strategy, every list of offered outputs, every target) is a
+   duplicate-free sub-list of the offered outputs and, if not empty, its effective amounts cover the target. *)
 Theorem C03_select_sound :
   forall fpb shuffle, (forall l, Permutation l (shuffle l)) -> forall target coc, 0 <= coc ->
   forall s txos,
@@ -15,3 +18,191 @@ Theorem C03_select_sound :
   (r <> [] -> target <= sum_eff fpb r).
 Proof. exact select_sound_plain. Qed.
 Print Assumptions C03_select_sound.
+
+(* The same for the sqlite chooser: duplicate-free, taken from the offered rows, plain (txo_type 0) outputs
+   only, and a non-empty answer covers the amount to reserve. *)
+Theorem C03_sqlite_sound :
+  forall fpb rows a floor, 0 <= floor ->
+  let r := sqlite_select fpb rows a floor in
+  (NoDup rows -> NoDup r) /\ (NoDup (map uid rows) -> NoDup (map uid r)) /\ incl r rows /\
+  (r <> [] -> a <= sum_eff fpb r) /\ (forall u, In u r -> utype0 u = true).
+Proof. exact sqlite_sound_plain. Qed.
+Print Assumptions C03_sqlite_sound.
+
+(* Completeness, judged on outputs worth more than the fee to spend them: Ledger.get_spendable_utxos comes
+   back empty exactly when the strategy's coverage predicate is false.  Includes the first-descent argument
+   for branch_and_bound inside standard (a total inside [d, d + fee] is found within n + 1 <= MAXIMUM_TRIES
+   tries, also in the second call of prefer_confirmed, which shares the try counter) and random_draw for
+   every permutation. *)
+Theorem C03_select_complete :
+  forall fpb shuffle, (forall l, Permutation l (shuffle l)) -> 0 <= fpb ->
+  forall s free d,
+  0 < d -> (forall u, In u free -> 0 < eff fpb u) -> (N.of_nat (length free) < MAXIMUM_TRIES)%N ->
+  let fee := CHANGE_EST_SIZE * fpb in
+  let r := choose_from fpb shuffle s free d in
+  match s with
+  | Standard | PreferConfirmed => r = [] <-> sum_eff fpb free < d
+  | OnlyConfirmed => r = [] <-> sum_eff fpb (filter (fun u => uheight u >? 0) free) < d
+  | ClosestMatch => r = [] <-> forall u, In u free -> eff fpb u < d + fee
+  | RandomDraw => r = [] <-> sum_eff fpb free < d + fee
+  | BranchAndBound | Sqlite => True      (* see the two _partial theorems *)
+  end.
+Proof. exact select_complete_five. Qed.
+Print Assumptions C03_select_complete.
+
+(* branch_and_bound on its own: a non-empty answer lies in the window, and if ALL offered outputs together
+   lie in the window an answer is found.  Missing for the full equivalence: a sub-set inside the window that
+   needs more than MAXIMUM_TRIES = 100000 search steps is not found by the code either. *)
+Theorem C03_bnb_complete_partial :
+  forall fpb shuffle, (forall l, Permutation l (shuffle l)) -> 0 <= fpb ->
+  forall free d,
+  0 < d -> (forall u, In u free -> 0 < eff fpb u) -> (N.of_nat (length free) < MAXIMUM_TRIES)%N ->
+  let fee := CHANGE_EST_SIZE * fpb in
+  let r := choose_from fpb shuffle BranchAndBound free d in
+  (r <> [] -> d <= sum_eff fpb r <= d + fee) /\ (d <= sum_eff fpb free <= d + fee -> r <> []).
+Proof. exact bnb_complete_partial. Qed.
+Print Assumptions C03_bnb_complete_partial.
+
+(* the sqlite chooser: exact when every plain output is below 92233720369 dewies (about 922 LBC), the
+   smallest amount its windows [floor, floor * multiplier) can fail to reach before floor * multiplier
+   passes SQLITE_MAX_INTEGER.  Missing: larger outputs (C03_sqlite_reach_ex shows the bound is real). *)
+Theorem C03_sqlite_complete_partial :
+  forall fpb shuffle, (forall l, Permutation l (shuffle l)) -> 0 <= fpb ->
+  forall free d,
+  0 < d -> (forall u, In u free -> 0 < eff fpb u) -> (N.of_nat (length free) < MAXIMUM_TRIES)%N ->
+  (forall u, In u free -> utype0 u = true -> uamount u < 92233720369) ->
+  (choose_from fpb shuffle Sqlite free d = [] <-> sum_eff fpb (filter utype0 free) < d + CHANGE_EST_SIZE * fpb).
+Proof. exact sqlite_ledger_complete_partial. Qed.
+Print Assumptions C03_sqlite_complete_partial.
+
+(* create = Ok: the transaction is pre ++ added -> outs ++ change (requested outputs and pre-chosen inputs are
+   untouched by construction of [Ok]); the added inputs are distinct, were unreserved outputs of the wallet,
+   none of them is a pre-chosen input -- so the complete input list has no duplicate outpoint -- and afterwards
+   exactly the pre-chosen and the added inputs have become reserved; with both counts in one compact-size byte
+   the fee (inputs minus outputs) is at least the size fee / name fee of the finished transaction and exceeds
+   it by at most 5 * cost_of_change + DUST + 4, cost_of_change = (10 + 46) * fee_per_byte. *)
+Theorem C03_conservation_and_fee :
+  forall fpb fpnc shuffle, (forall l, Permutation l (shuffle l)) -> 0 <= fpb ->
+  forall strat pre outs w0, NoDup (map (fun e : utxo * bool => uid (fst e)) w0) ->
+  forall added ch w',
+  create fpb fpnc shuffle strat pre outs w0 = Ok added ch w' ->
+  NoDup (map uid added) /\
+  (forall u, In u added -> In u (unreserved w0) /\ ~ In (uid u) (map iid pre)) /\
+  (NoDup (map iid pre) -> NoDup (map iid pre ++ map uid added)) /\
+  w' = reserve added (set_reserved true (map iid pre) w0) /\
+  (zlen pre + zlen added <= 252 -> zlen outs <= 251 ->
+   required_fee fpb fpnc pre outs added ch <= tx_fee pre outs added ch
+     <= required_fee fpb fpnc pre outs added ch + 5 * ((10 + CHANGE_EST_SIZE) * fpb) + DUST + 4).
+Proof. exact create_ok. Qed.
+Print Assumptions C03_conservation_and_fee.
+
+(* With requested outputs the loop body runs once; everything is determined: inputs are added iff the
+   pre-chosen ones do not cover the cost and are exactly the ledger's selection for the deficit; there is at
+   most one change output, present iff surplus - cost_of_change > DUST, worth exactly that; without it the
+   surplus left to the miner is at most cost_of_change + DUST; the build is refused iff the selection for
+   the deficit is empty. *)
+Theorem C03_change_rule :
+  forall fpb fpnc shuffle, (forall l, Permutation l (shuffle l)) -> 0 <= fpb ->
+  forall strat pre outs w0, NoDup (map (fun e : utxo * bool => uid (fst e)) w0) ->
+  outs <> [] ->
+  let deficit := cost0 fpb fpnc pre outs - payment0 fpb pre in
+  let w1 := set_reserved true (map iid pre) w0 in      (* the pre-chosen inputs are reserved first *)
+  let sel := if payment0 fpb pre <? cost0 fpb fpnc pre outs then spendable fpb shuffle strat w1 deficit else [] in
+  let surplus := payment0 fpb pre + sum_eff fpb sel - cost0 fpb fpnc pre outs in
+  let coc := cost_of_change fpb pre outs (zlen sel) in
+  match create fpb fpnc shuffle strat pre outs w0 with
+  | Ok added ch w' =>
+      added = sel /\ (0 < deficit -> sel <> []) /\ w' = reserve sel w1 /\ 0 <= surplus /\
+      match ch with
+      | Some c => c = surplus - coc /\ DUST < c
+      | None => surplus - coc <= DUST
+      end
+  | Refused w' => 0 < deficit /\ sel = [] /\ w' = release (map iid pre) w0
+  end.
+Proof. exact create_with_outputs. Qed.
+Print Assumptions C03_change_rule.
+
+(* A refusal always comes from an empty selection for a positive deficit (C03_select_complete says what
+   that means per strategy), over the wallet minus what this build had already taken itself. *)
+Theorem C03_refuses_only_when_insufficient :
+  forall fpb fpnc shuffle, (forall l, Permutation l (shuffle l)) -> 0 <= fpb ->
+  forall strat pre outs w0, NoDup (map (fun e : utxo * bool => uid (fst e)) w0) ->
+  forall w', create fpb fpnc shuffle strat pre outs w0 = Refused w' ->
+  w' = release (map iid pre) w0 /\
+  exists held deficit, NoDup (map uid held) /\
+    (forall u, In u held -> In u (unreserved w0) /\ ~ In (uid u) (map iid pre)) /\
+    0 < deficit /\ spendable fpb shuffle strat (reserve held (set_reserved true (map iid pre) w0)) deficit = [].
+Proof. exact create_refused. Qed.
+Print Assumptions C03_refuses_only_when_insufficient.
+
+(* After a refusal the wallet is the original one with the transaction's own inputs released: none of them is
+   reserved and nothing became reserved. *)
+Theorem C03_release_on_failure :
+  forall fpb fpnc shuffle, (forall l, Permutation l (shuffle l)) -> 0 <= fpb ->
+  forall strat pre outs w0, NoDup (map (fun e : utxo * bool => uid (fst e)) w0) ->
+  forall w', create fpb fpnc shuffle strat pre outs w0 = Refused w' ->
+  w' = release (map iid pre) w0 /\ (forall i, In i (map iid pre) -> ~ In i (reserved_ids w')) /\
+  (forall i, In i (reserved_ids w') -> In i (reserved_ids w0)).
+Proof. exact release_on_failure. Qed.
+Print Assumptions C03_release_on_failure.
+
+(* The model of create has exactly two outcomes; the correspondence shows the implementation raises
+   nothing but InsufficientFundsError. *)
+Theorem C03_no_other_failure :
+  forall fpb fpnc shuffle strat pre outs w,
+  (exists a c w', create fpb fpnc shuffle strat pre outs w = Ok a c w') \/
+  (exists w', create fpb fpnc shuffle strat pre outs w = Refused w').
+Proof. exact create_total. Qed.
+Print Assumptions C03_no_other_failure.
+
+(* ... and the one place where the code could raise something else inside the selector, the list access
+   txos[len(current_selection)] of branch_and_bound, is in range in every state satisfying the loop invariant
+   (cv = value of the selection, ca = value of the undecided rest, decided + rest = txos). *)
+Theorem C03_bnb_index_in_range :
+  forall fpb target coc txos cv ca done rest,
+  state_inv fpb txos cv ca done rest ->
+  (cv + ca <? target) || (cv >? target + coc) = false -> (cv >=? target) = false -> rest <> [].
+Proof. exact bnb_index_in_range. Qed.
+Print Assumptions C03_bnb_index_in_range.
+
+(* non-vacuity: a wallet of 1, 1, 3, 5, 10 LBC at 50 dewies per byte *)
+Example C03_ex_hyp_nodup : NoDup (map (fun e : utxo * bool => uid (fst e)) ex_wallet).
+Proof. exact ex_nodup. Qed.
+Example C03_ex_hyp_positive : forall u, In u (unreserved ex_wallet) -> 0 < eff 50 u.
+Proof. exact ex_positive. Qed.
+Example C03_ex_hyp_perm : forall l, Permutation l (ex_id l).
+Proof. exact ex_id_perm. Qed.
+Example C03_ex_pay :
+  match create 50 0 ex_id Standard [] [mkO 300000000 34 None] ex_wallet with
+  | Ok added ch w' => map uid added = [4%N] /\ ch = Some 199987600 /\ reserved_ids w' = [4%N]
+  | Refused _ => False
+  end.
+Proof. exact ex_pay. Qed.
+Example C03_ex_exact_no_change :
+  match create 50 0 ex_id Standard [] [mkO 299990400 34 None] ex_wallet with
+  | Ok added ch w' => map uid added = [3%N] /\ ch = None
+  | Refused _ => False
+  end.
+Proof. exact ex_exact. Qed.
+Example C03_ex_refuse :
+  create 50 0 ex_id Standard [] [mkO 100000000000 34 None] ex_wallet = Refused ex_wallet.
+Proof. exact ex_refuse. Qed.
+(* the defect repaired by `fix: Transaction.create reserves the pre-chosen inputs before funding`: the old
+   create (no reservation of pre-chosen inputs) puts outpoint 1 into the transaction twice; the repaired one
+   takes outpoint 2 and leaves both reserved *)
+Example C03_old_create_refuted :
+  match create_old 50 0 ex_id Standard [mkI 1 11400 148] [] dup_wallet with
+  | Ok added _ _ => In 1%N (map iid [mkI 1 11400 148]) /\ In 1%N (map uid added)
+  | Refused _ => False
+  end.
+Proof. exact create_old_refuted. Qed.
+Example C03_repaired_create_ex :
+  match create 50 0 ex_id Standard [mkI 1 11400 148] [] dup_wallet with
+  | Ok added ch w' => map uid added = [2%N] /\ reserved_ids w' = [1%N; 2%N]
+  | Refused _ => False
+  end.
+Proof. exact create_repaired_ex. Qed.
+(* one confirmed output of 2 000 000 LBC is invisible to the sqlite chooser *)
+Example C03_sqlite_reach_ex :
+  sqlite_select 50 [ex_u 1 200000000000000] 100002300 1 = [] /\ 100002300 <= sum_eff 50 [ex_u 1 200000000000000].
+Proof. exact sqlite_reach_is_real. Qed.
